@@ -104,12 +104,14 @@ KINDS = ["time", "beat", "meter", "bank", "custom", "vol", "unin", "fx"]
 CLEAN = {
     "beat": ["500", "250", "-100", "-50", "-200", "-25", "-1000", "-1", "0", "-0", "6", "5.999", "60000", "60001", "1e9", "-1e9", "nan", "NaN",
              "1e-5", "-1e-5", "-10000", "-9", "-10", "-11", "-100.00000000000001", "-99.99999999999999", "-33.333333333333336"],
-    "meter": ["4", "4", "3", "7", "1", "12"],
-    "bank": ["0", "1", "2", "3", "4", "-1", "7"],
-    "custom": ["0", "0", "1", "2", "-1", "100"],
-    "vol": ["100", "100", "50", "0", "-20", "150", "101", "70"],
+    "meter": ["4", "4", "3", "7", "1", "12", "260", "-252", "2147483647", "-2147483648"],
+    # every integer field also with values that are valid or special only after a narrowing cast (256 + k, 65536 + k, -256 + k),
+    # at the ends of the accepted range and one beyond (seeds C12-m, C12-n)
+    "bank": ["0", "1", "2", "3", "4", "-1", "7", "256", "257", "259", "-254", "-256", "65537", "2147483647", "-2147483647", "-2147483648"],
+    "custom": ["0", "0", "1", "2", "-1", "100", "256", "65536", "2147483647", "-2147483647", "-2147483648", "2147483648"],
+    "vol": ["100", "100", "50", "0", "-20", "150", "101", "70", "256", "356", "-156", "2147483647", "-2147483647", "-2147483648"],
     "unin": ["1", "0"],
-    "fx": ["0", "1", "8", "9", "3", "15", "2"],
+    "fx": ["0", "1", "8", "9", "3", "15", "2", "257", "264", "-2147483648", "2147483647"],
 }
 
 
